@@ -109,6 +109,22 @@ CLAIMS['C11'] = {
     'technique': 'CBMC code contracts on the lowered rule bodies against trait expressions generated from the real analyze_traits; bounded exhaustive native enumeration for analyze_cycles_impl::work()',
 }
 
+CLAIMS['C20'] = {
+    'text': 'PARTIAL. PROVED (CBMC contracts, every callee the real lowered code, complete unwinding with unwinding assertions: all loops are bounded by template constants or by the 255 limit): '
+            'seq<IPv4address, eof>, seq<dec_octet, eof>, seq<h16, eof>, seq<ls32, eof> accept exactly the strings of the RFC 3986 section 3.2.2 productions (recogniser written from the RFC), consume the whole input then, restore the cursor otherwise and never raise; '
+            'the building blocks of IPv6address - h16, ls32, the left parts opt<h16, rep_opt<K, ":", h16>> (K = 0..6) and the counted groups rep<N, h16, ":"> (N = 2..6) - are proved against PEG prefix-length functions for exactly the instantiations IPv6address calls '
+            '(h16 replaced by an executable summary that is itself proved). '
+            'BOUNDED (not proved): the whole IPv6address rule followed by eof, and the same literal as host of URI / URI-reference / absolute-URI, run natively against the RFC recogniser on ~4.8 million strings '
+            '(all strings over {1,a,:,.,g} up to length 7, all group-count shapes with and without "::" and IPv4 tails, all single-character edits of them). '
+            'NOT DECIDED: the URI-level rules for arbitrary inputs (unbounded star/plus over a regular language).',
+    'note': 'Windows of at most 48 bytes with the cursor at the start (the longest IPv6 literal has 45 bytes; the rules read at most one byte beyond a literal). The whole IPv6address rule in one CBMC job needed 28-38 GB / gave no answer in 25 min (real bodies, or all components summarised), '
+            'and the spec-against-spec lemma "PEG composition = RFC language" gave no answer in 20 min: hence the bounded native stand-in, listed under bounded_native_stand_ins in the evidence and not counted in obligations/discharged. '
+            'Outside the decided part (seen by a seeding agent, not by the check): host = sor<IP_literal, IPv4address, reg_name> commits to an IPv4address prefix, so "http://1.2.3.4x/" (a valid reg-name) is rejected.',
+    'design': 'DESIGN.md section 5 C20',
+    'technique': 'CBMC code contracts on the lowered rule bodies with complete unwinding and assume-guarantee summaries; bounded exhaustive native enumeration for the whole IPv6address rule',
+}
+
 NOT_APPLICABLE = {
+    'C12': 'parse_tree builds std::vector<std::unique_ptr<node>> trees through control hooks and transformers; the lowering has no model of std::vector of owning pointers and the property is about whole parsing runs (which nodes survive backtracking), not one call: no contract within reach of CBMC expresses it (DESIGN.md section 5, C12). The hook protocol it relies on is C08.',
     'C14': 'language equality between a recursive grammar and RFC 8259 is not a per-function contract; json.hpp contains no function bodies (DESIGN.md section 5, C14)',
 }
